@@ -55,9 +55,9 @@ def gen_and_run(ctx, avh, avm, seed, tier, enable, nscripts, tag, avh_oracle=Non
     meta = os.path.join(cdir, "result.json")
     if os.path.exists(meta):
         return json.load(open(meta))
-    # keep at most 5 older caches (disk)
+    # keep at most 8 older caches (disk)
     olds = sorted((d for d in os.listdir(TW) if d.startswith("cache-")), key=lambda d: os.path.getmtime(os.path.join(TW, d)))
-    for d in olds[:-5]:
+    for d in olds[:-8]:
         shutil.rmtree(os.path.join(TW, d), ignore_errors=True)
     os.makedirs(cdir, exist_ok=True)
     open(os.path.join(cdir, "tag"), "w").write(tag)
@@ -187,7 +187,7 @@ def minimise(avh, prop, kind, script_text, budget=40):
 
 
 def run_tree_property(pid, tier, seed, props_file, enable="serialize", rule_extra="", extra_check=None, level_note=None,
-                      oracle_props=None, assumptions=None, hooks_oracle=False):
+                      oracle_props=None, assumptions=None, hooks_oracle=False, load_stream=True):
     """the whole check for one tree property"""
     ctx = Ctx(pid, tier, seed)
     oracle_props = oracle_props or [pid]
@@ -216,6 +216,14 @@ def run_tree_property(pid, tier, seed, props_file, enable="serialize", rule_extr
         nscripts = 4000 if tier == "thorough" else 640
         res = gen_and_run(ctx, avh, avm, seed, tier, enable, nscripts, "generic", avh_oracle=avh_oracle or avh)
         shards = res["shards"]
+        # second stream: the same operations interleaved with load_buffer into non-empty models (merges, shared reference
+        # targets across files, rejected loads); the property quantifies over histories that include loading
+        if load_stream and "load" not in enable:
+            res2 = gen_and_run(ctx, avh, avm, seed + 17, tier, enable + ",load", 1600 if tier == "thorough" else 240, "withload",
+                               avh_oracle=avh_oracle or avh)
+            for s in res2["shards"]:
+                s["shard"] = len(shards)
+                shards.append(s)
         errs = [s.get("error") for s in shards if s.get("error")]
         nscr = sum(s.get("n", 0) for s in shards)
         nlines = sum(s.get("lines", 0) for s in shards)
@@ -258,9 +266,12 @@ def run_tree_property(pid, tier, seed, props_file, enable="serialize", rule_extr
         ctx.coverage["operation_mix_ok_err"] = opstats
         ctx.coverage["distinct_nontrivial"] = sum(v[0] for v in opstats.values())
         # ---- oracle verdicts for this property
-        fails = [parse_fail(l) for s in shards for l in s.get("fails", [])]
-        for f in fails:
-            f["shard"] = next(s["shard"] for s in shards if f["raw"] in s.get("fails", []))
+        fails = []
+        for s in shards:
+            for l in s.get("fails", []):
+                f = parse_fail(l)
+                f["shard"] = s["shard"]
+                fails.append(f)
         mine = [f for f in fails if f["prop"] in oracle_props]
         known = [e for e in lib.load_known(pid) if e.get("status") == "known"]
         for f in mine:
